@@ -776,8 +776,13 @@ func (s *Server) handlePAP(session *Session, data []byte) {
 		session.SetState(StateIPCPNegotiation)
 		s.startIPCPNegotiation(session)
 	} else {
-		// Terminate
+		// Terminate: the session is over, so it gives up the address it may
+		// hold from an earlier successful authentication and leaves the table
 		session.SetState(StateClosed)
+		if s.clientIPPool != nil {
+			s.clientIPPool.Release(session.SessionID)
+		}
+		s.sessions.RemoveSession(session.ID)
 	}
 }
 
